@@ -101,6 +101,7 @@ def generate(rng):
         scn['peer_closes'] = rng.random() < 0.4
     else:
         scn['peer_closes'] = rng.random() < 0.5
+        scn['use_poll'] = rng.random() < 0.4
     nops = rng.choice([1, 2, 3, 4, 5, 6, 8])
     if os.environ.get('SIMPEX_TIER') == 'thorough' and rng.random() < 0.4:
         nops = rng.randint(6, 16)
@@ -275,7 +276,7 @@ def run(scn, prop=None):
                 r.sock = shim.FakeSocket(a)
                 child = T.SimSocketSpawn(r.sock, **kw)
             else:
-                child = T.SimFdSpawn(k.alloc_fd(a), **kw)
+                child = T.SimFdSpawn(k.alloc_fd(a), use_poll=bool(scn.get('use_poll', False)), **kw)
             main_of = a
         state['child'] = child
         r.child = child
